@@ -81,7 +81,7 @@ def case_text(trace, case_id, upto_op=None):
     return "\n".join(out) + "\n"
 
 
-def run_sharded(ctx, sub, shards, args_of, timeout, oracle_mode=None):
+def run_sharded(ctx, sub, shards, args_of, timeout, oracle_mode=None, more_modes=()):
     """Run harness subcommand `sub` in parallel shards -> trace files; then the oracle on each. Returns list of
     (trace path, oracle output)."""
     def one(i):
@@ -99,9 +99,19 @@ def run_sharded(ctx, sub, shards, args_of, timeout, oracle_mode=None):
             oout, orc = q.stdout, q.returncode
         except subprocess.TimeoutExpired as e:
             oout, orc = "oracle timeout", 124
-        return trace, hrc, hout, orc, oout
+        outs = [(trace, hrc, hout, orc, oout)]
+        for m in more_modes:       # further projections of the same trace
+            try:
+                q = subprocess.run([C.oracle_exe(), m, trace], stdout=subprocess.PIPE, stderr=subprocess.STDOUT, text=True, timeout=timeout, errors="replace")
+                outs.append((trace, 0, "", q.returncode, q.stdout))
+            except subprocess.TimeoutExpired:
+                outs.append((trace, 0, "", 124, "oracle timeout"))
+        return outs
     with ThreadPoolExecutor(max_workers=min(16, shards)) as ex:
-        return list(ex.map(one, range(shards)))
+        res = []
+        for outs in ex.map(one, range(shards)):
+            res.extend(outs)
+        return res
 
 
 def absorb(res, pid, trace, hrc, hout, orc, oout, max_detail=5):
@@ -180,7 +190,7 @@ def _hist(ctx, mode, img, rule, n_quick, n_thorough, as_propfail=False, extra_ar
                 n = n_quick * 6
             tmo = 900 if ctx.tier == "quick" else (ctx.budget_s or 3000)
             runs = run_sharded(ctx, "c04", shards, lambda i: ["-seed", str(ctx.seed * 1000 + i), "-n", str(n // shards), "-img", img,
-                                                             "-dir", "{dir}"] + list(extra_args) + (["-bigfree"] if (i == shards - 1 and img != "none") else [])
+                                                             "-dir", "{dir}"] + list(extra_args) + (["-bigfree"] if (i == shards - 1 and mode in ("c07", "c12")) else [])
                                + (["-txs", "40", "-ops", "40"] if ctx.tier == "thorough" and i % 4 == 0 else []),
                                tmo, oracle_mode=mode)
         for r in runs:
@@ -307,4 +317,33 @@ def c08(ctx):
     return res
 
 
-PLUGINS = {"C08": c08, "C11": c11, "C02": c02, "C06": c06, "C10": c10, "C05": c05, "C09": c09, "C04": c04, "C07": c07, "C12": c12}
+def c13(ctx):
+    """C13 options: every history is run under K option schedules (quick K=5, thorough K=24) that re-draw, at EVERY open, the freelist backend, freelist-sync, grow-sync, initial map size,
+    StrictMode, the page size (first open only) and slip in read-only opens with/without PreLoadFreelist; all API results and dumps of every schedule are compared with the single Spec.v run
+    (so they are equal to each other); every file image must satisfy the accounting predicate; after every open the code's free list must equal the decoder's scan (Pager.scan_free)."""
+    res = Result()
+    res.rule = HIST_RULE + "; each history under K option schedules; distinct by MD5 of the op list including the options of every open"
+    with ctx:
+        k = "5" if (ctx.tier == "quick" or ctx.budget_s) else "24"
+        n = 10 if (ctx.tier == "quick" or ctx.budget_s) else 120
+        shards = 8 if ctx.tier == "quick" else 16
+        if ctx.replay:
+            runs = run_sharded(ctx, "c04", 1, lambda i: ["-replay", ctx.replay, "-img", "commit+io", "-dir", "{dir}"], 900, oracle_mode="c04", more_modes=("c07", "c13"))
+        else:
+            runs = run_sharded(ctx, "c04", shards, lambda i: ["-seed", str(ctx.seed * 1000 + i), "-n", str(n), "-sched", k, "-img", "commit+io", "-dir", "{dir}"],
+                               ctx.budget_s or (900 if ctx.tier == "quick" else 3000), oracle_mode="c04", more_modes=("c07", "c13"))
+        first = True
+        for j, r in enumerate(runs):
+            sub = Result()
+            absorb(sub, "C13", *r)
+            if j % 3 == 0:         # the Spec projection: a deviation under some option schedule is a concrete failing configuration
+                sub.propfails += sub.mismatches
+                sub.mismatches = []
+            else:                  # projections of the same cases: do not count them twice
+                sub.evaluations = 0
+                sub.validated = 0
+            res.merge(sub)
+    return res
+
+
+PLUGINS = {"C13": c13, "C08": c08, "C11": c11, "C02": c02, "C06": c06, "C10": c10, "C05": c05, "C09": c09, "C04": c04, "C07": c07, "C12": c12}
